@@ -51,11 +51,17 @@ impl<'a> P<'a> {
         if d.is_empty() {
             return Err(Fail);
         }
+        let v = d.iter().fold(0u64, |a, &c| a.saturating_mul(10).saturating_add((c - b'0') as u64));
+        if v >= 1000 {
+            // no field of the grammar admits a value above 365: not a sentence, however it is written
+            return Err(Fail);
+        }
         if d.len() > 3 {
-            // how wide a number may be written is not stated
+            // a value in range written with more than three digits (leading zeros): how wide a number may be
+            // written is not stated
             self.unspec = true;
         }
-        Ok(d.iter().fold(0u64, |a, &c| a.saturating_mul(10).saturating_add((c - b'0') as u64)))
+        Ok(v)
     }
     fn name(&mut self) -> Result<String, Fail> {
         let raw: &[u8] = if self.eat(b'<') {
@@ -82,7 +88,17 @@ impl<'a> P<'a> {
             }
             if let Some(c) = self.peek() {
                 if c >= 0x80 {
-                    self.unspec = true; // non-ASCII letters in an unquoted name: locale-dependent in POSIX
+                    // non-ASCII letters in an unquoted name are locale-dependent in POSIX; a character that is
+                    // valid UTF-8 and not a letter in Unicode (no-break space, U+2003, ...) is a letter nowhere
+                    let rest = &self.b[self.i..];
+                    let valid = match std::str::from_utf8(rest) {
+                        Ok(t) => t,
+                        Err(e) => std::str::from_utf8(&rest[..e.valid_up_to()]).unwrap_or(""),
+                    };
+                    match valid.chars().next() {
+                        Some(ch) if !ch.is_alphabetic() => {}
+                        _ => self.unspec = true,
+                    }
                 }
             }
             &self.b[s..self.i]
